@@ -316,7 +316,15 @@ template <typename Row>
 template <typename Row2>
 Linear_Expression_Impl<Row>&
 Linear_Expression_Impl<Row>::operator-=(const Linear_Expression_Impl<Row2>& e2) {
-  linear_combine(e2, Coefficient_one(), -1);
+  if (static_cast<const void*>(&e2) == static_cast<const void*>(this)) {
+    // The row-level linear combination requires distinct rows:
+    // `e -= e' is computed on a copy of the argument.
+    const Linear_Expression_Impl<Row2> e2_copy(e2);
+    linear_combine(e2_copy, Coefficient_one(), -1);
+  }
+  else {
+    linear_combine(e2, Coefficient_one(), -1);
+  }
   return *this;
 }
 
